@@ -242,7 +242,8 @@ def verdict(ctx, level, coverage, assumptions, extra_violations=()):
     pid = ctx.pid
     known = [f for f in load_known()["findings"] if f["property"] == pid]
     hits = {}; viol = []
-    for m in ctx.mismatches:
+    notes = [m for m in ctx.mismatches if m.get("note")]          # informational records (e.g. coverage remarks of a trace spec): never violations
+    for m in [m for m in ctx.mismatches if not m.get("note")]:
         for f in known:
             if matches(m, f["match"]):
                 hits.setdefault(f["id"], []).append(m); break
@@ -268,6 +269,9 @@ def verdict(ctx, level, coverage, assumptions, extra_violations=()):
     cov.setdefault("evaluations", ctx.evaluations)
     cov.setdefault("samples", ctx.samples[:8] or ["(none)"])
     cov["known_findings_hit"] = {k: len(v) for k, v in hits.items()}
+    if notes:
+        cov["notes"] = notes[:20]
+        for m in notes[:10]: print("NOTE: property=%s %s" % (pid, json.dumps({k: v for k, v in m.items() if k not in ("note", "prop")})[:300]))
     ev = {"property_id": pid, "tier": ctx.tier, "seed": ctx.seed, "level": level, "coverage": cov,
           "assumptions": assumptions, "wall_s": round(time.time() - ctx.t0, 1), "violations": len(viol)}
     os.makedirs(os.path.join(VERIF, "evidence"), exist_ok=True)
